@@ -255,9 +255,9 @@ theorem siteInv_import {s s' : Site} (hi : SiteInv s) {df : Defects} {cand : Roo
 
 theorem groupAgrees_sort {a : Auth} {nf : Bool} {g : GroupRow} (h : GroupAgrees a (sortGroup nf g)) :
     GroupAgrees a g :=
-  ⟨h.id, h.users.trans ((sortUsers_perm nf g.users).map _),
-   h.userAdmins.trans ((sortUsers_perm nf g.userAdmins).map _),
-   h.rights.trans ((sortRights_perm nf g.rights).map _)⟩
+  ⟨h.id, h.users.trans ((readUsers_perm nf g.users).map _),
+   h.userAdmins.trans ((readUsers_perm nf g.userAdmins).map _),
+   h.rights.trans ((readRights_perm nf g.rights).map _)⟩
 
 theorem forall2_sort {nf : Bool} {l₂ : List GroupRow} {l₁ : List Auth}
     (h : Forall2 GroupAgrees l₁ (l₂.map (sortGroup nf))) : Forall2 GroupAgrees l₁ l₂ := by
@@ -270,40 +270,33 @@ theorem forall2_sort {nf : Bool} {l₂ : List GroupRow} {l₁ : List Auth}
 /-- agreement with the rows as exported (sorted) is agreement with the rows as stored -/
 theorem agreesOrd_export {r : Room} {rr : RoomRow} {df : Defects} (h : AgreesOrd r (exportRoom df rr)) :
     AgreesOrd r rr :=
-  ⟨h.admins.trans ((sortUsers_perm _ rr.admins).map _), forall2_sort h.groups⟩
+  ⟨h.admins.trans ((readUsers_perm _ rr.admins).map _), forall2_sort h.groups⟩
 
 theorem agreesOrd_gids_nodup {r : Room} {rr : RoomRow} (ha : AgreesOrd r rr) (hw : r.WF) :
     (rr.groups.map (·.gid)).Nodup := by
   rw [← forall2_ids ha.groups]; exact hw.ids
 
-/-- with ascending replay, normalised rights and no dropped room, reloading the stored rooms succeeds and
-    builds, room by room, the parse of the exported rows -/
-theorem reloadAll_none {l : List RoomRow} (hn : ∀ rr ∈ l, (rr.groups.map (·.gid)).Nodup) :
-    ∃ ms, reloadAll Defects.none l = .ok ms ∧
-      Forall2 (fun (r : Room) rr => parseRoom false (exportRoom Defects.none rr) = .ok r) ms l := by
+/-- start-up loads room `rr` as `r`, and `r` agrees with the stored rows -/
+def Loads (df : Defects) (r : Room) (rr : RoomRow) : Prop :=
+  reloadRoom df rr = some (.ok r) ∧ AgreesOrd r rr ∧ r.WF ∧ r.id = rr.rid
+
+theorem reloadAll_ok {df : Defects} {l : List RoomRow} (h : ∀ rr ∈ l, ∃ r, Loads df r rr) :
+    ∃ ms, reloadAll df l = .ok ms ∧ Forall2 (Loads df) ms l := by
   induction l with
   | nil => exact ⟨[], rfl, Forall2.nil⟩
   | cons rr t ih =>
-    obtain ⟨ms, hms, f⟩ := ih (fun x hx => hn x (List.mem_cons_of_mem _ hx))
-    obtain ⟨r, hr⟩ := parseRoom_sorted false rr (hn rr (List.mem_cons_self ..))
+    obtain ⟨ms, hms, f⟩ := ih (fun x hx => h x (List.mem_cons_of_mem _ hx))
+    obtain ⟨r, hr⟩ := h rr (List.mem_cons_self ..)
     refine ⟨r :: ms, ?_, Forall2.cons hr f⟩
-    have e : reloadRoom Defects.none rr = some (.ok r) := by
-      simp only [reloadRoom, Defects.none, Bool.false_and, Bool.false_eq_true, if_false]
-      simp only [Defects.none] at hr
-      rw [hr]
-    simp only [reloadAll, e, hms]
+    simp only [reloadAll, hr.1, hms]
 
-theorem find_forall2 {ms : List Room} {l : List RoomRow}
-    (f : Forall2 (fun (r : Room) rr => parseRoom false (exportRoom Defects.none rr) = .ok r) ms l) (rid : Id) :
+theorem find_forall2 {df : Defects} {ms : List Room} {l : List RoomRow} (f : Forall2 (Loads df) ms l) (rid : Id) :
     (ms.find? (·.id = rid) = none ∧ l.find? (·.rid = rid) = none) ∨
-    ∃ r rr, ms.find? (·.id = rid) = some r ∧ l.find? (·.rid = rid) = some rr ∧
-      parseRoom false (exportRoom Defects.none rr) = .ok r := by
+    ∃ r rr, ms.find? (·.id = rid) = some r ∧ l.find? (·.rid = rid) = some rr ∧ Loads df r rr := by
   induction f with
   | nil => left; simp
   | @cons a b l1 l2 hab _ ih =>
-    have hid : a.id = b.rid := by
-      have := (parseRoom_ok hab).1
-      simpa [exportRoom] using this
+    have hid : a.id = b.rid := hab.2.2.2
     by_cases h : b.rid = rid
     · right
       exact ⟨a, b, by simp [List.find?, hid, h], by simp [List.find?, h], hab⟩
@@ -319,22 +312,21 @@ theorem gidsNodup_of_inv {s : Site} (hi : SiteInv s) : ∀ rr ∈ s.stored, (rr.
   rw [hs] at hs'; cases hs'
   exact agreesOrd_gids_nodup ha hw
 
-/-- **restart.** With ascending replay, normalised rights and every room loaded (`Defects.none`), an
-    instance satisfying the invariant restarts successfully, keeps the invariant, and every room it held
-    is rebuilt from the same stored rows. -/
-theorem restart_none {s : Site} (hi : SiteInv s) (hd : s.dead = false) :
-    ∃ s', s.restart Defects.none = .ok s' ∧ SiteInv s' ∧ s'.stored = s.stored ∧
+/-- **restart**, when every stored room loads into a room that agrees with its rows: the instance restarts,
+    keeps the invariant, and every room it held is rebuilt from the same stored rows -/
+theorem restart_ok {df : Defects} {s : Site} (hi : SiteInv s) (hd : s.dead = false)
+    (hl : ∀ rr ∈ s.stored, ∃ r, Loads df r rr) :
+    ∃ s', s.restart df = .ok s' ∧ SiteInv s' ∧ s'.stored = s.stored ∧ s'.dead = false ∧
       ∀ rid r, s.getMem rid = some r → ∃ r' rr, s'.getMem rid = some r' ∧ s.getStored rid = some rr ∧
-        AgreesOrd r rr ∧ r.WF ∧ AgreesOrd r' (exportRoom Defects.none rr) ∧ r'.WF := by
-  obtain ⟨ms, hms, f⟩ := reloadAll_none (gidsNodup_of_inv hi)
-  refine ⟨{ s with mem := ms }, by simp [Site.restart, hd, hms], ?_, rfl, ?_⟩
+        AgreesOrd r rr ∧ r.WF ∧ AgreesOrd r' rr ∧ r'.WF := by
+  obtain ⟨ms, hms, f⟩ := reloadAll_ok hl
+  refine ⟨{ s with mem := ms }, by simp [Site.restart, hd, hms], ?_, rfl, hd, ?_⟩
   · refine ⟨hi.storedNodup, ?_, ?_⟩
     · intro rid r hr
       rcases find_forall2 f rid with ⟨h1, _⟩ | ⟨r0, rr, h1, h2, hp⟩
       · simp only [Site.getMem] at hr; rw [h1] at hr; cases hr
       · simp only [Site.getMem] at hr; rw [h1] at hr; cases hr
-        obtain ⟨ha, hw, _⟩ := parseRoom_agreesOrd hp
-        exact ⟨rr, h2, agreesOrd_export ha, hw⟩
+        exact ⟨rr, h2, hp.2.1, hp.2.2.1⟩
     · intro rid rr hr
       rcases find_forall2 f rid with ⟨_, h2⟩ | ⟨r0, rr0, h1, _, _⟩
       · simp only [Site.getStored] at hr; rw [h2] at hr; cases hr
@@ -344,7 +336,120 @@ theorem restart_none {s : Site} (hi : SiteInv s) (hd : s.dead = false) :
     rcases find_forall2 f rid with ⟨_, h2⟩ | ⟨r0, rr0, h1, h2, hp⟩
     · simp only [Site.getStored] at hs; rw [h2] at hs; cases hs
     · simp only [Site.getStored] at hs; rw [h2] at hs; cases hs
-      obtain ⟨ha', hw', _⟩ := parseRoom_agreesOrd hp
-      exact ⟨r0, rr, h1, by simp [Site.getStored, h2], ha, hw, ha', hw'⟩
+      exact ⟨r0, rr, h1, by simp [Site.getStored, h2], ha, hw, hp.2.1, hp.2.2.1⟩
+
+/-- with ascending replay, normalised rights and every room loaded, every stored room with distinct group
+    ids loads -/
+theorem loads_none {rr : RoomRow} (hn : (rr.groups.map (·.gid)).Nodup) : ∃ r, Loads Defects.none r rr := by
+  obtain ⟨r, hr⟩ := parseRoom_sorted false rr hn
+  obtain ⟨ha, hw, hid⟩ := parseRoom_agreesOrd hr
+  refine ⟨r, ?_, agreesOrd_export ha, hw, hid⟩
+  simp only [reloadRoom, Defects.none, Bool.false_and, Bool.false_eq_true, if_false]
+  simp only [Defects.none] at hr
+  rw [hr]
+
+theorem restart_none {s : Site} (hi : SiteInv s) (hd : s.dead = false) :
+    ∃ s', s.restart Defects.none = .ok s' ∧ SiteInv s' ∧ s'.stored = s.stored ∧ s'.dead = false ∧
+      ∀ rid r, s.getMem rid = some r → ∃ r' rr, s'.getMem rid = some r' ∧ s.getStored rid = some rr ∧
+        AgreesOrd r rr ∧ r.WF ∧ AgreesOrd r' rr ∧ r'.WF :=
+  restart_ok hi hd (fun rr hrr => loads_none (gidsNodup_of_inv hi rr hrr))
+
+/-! ### the code as it is: reload under a guard -/
+
+/-- the rows of one stored room for which the reload of the code as it is behaves: in every list the
+    entries of one key all carry one date (so newest-first replay passes the append-only check), every right
+    with `mutate_all` has `mutate_self` (so the missing normalisation changes nothing), and the room has at
+    least one admin entry and one group (so it is loaded at all) -/
+structure ReloadGuard (rr : RoomRow) : Prop where
+  adminsOne : ∀ a ∈ rr.admins, ∀ b ∈ rr.admins, a.key = b.key → a.date = b.date
+  usersOne : ∀ g ∈ rr.groups, ∀ a ∈ g.users, ∀ b ∈ g.users, a.key = b.key → a.date = b.date
+  userAdminsOne : ∀ g ∈ rr.groups, ∀ a ∈ g.userAdmins, ∀ b ∈ g.userAdmins, a.key = b.key → a.date = b.date
+  rightsOne : ∀ g ∈ rr.groups, ∀ a ∈ g.rights, ∀ b ∈ g.rights, a.entity = b.entity → a.date = b.date
+  rightsNormal : ∀ g ∈ rr.groups, ∀ a ∈ g.rights, a.mutAll = true → a.mutSelf = true
+  hasAdmin : rr.admins ≠ []
+  hasGroup : rr.groups ≠ []
+
+theorem toRight_raw_eq {r : RightRow} (h : r.mutAll = true → r.mutSelf = true) :
+    r.toRight true = r.toRight false := by
+  simp only [RightRow.toRight, Bool.false_eq_true, if_false, if_true, Right.new]
+  cases hs : r.mutSelf <;> cases ha : r.mutAll <;> simp_all
+
+theorem userWF_of_one {l : List UserRow} (h : ∀ a ∈ l, ∀ b ∈ l, a.key = b.key → a.date = b.date) :
+    UserWF (l.map UserRow.toUser) := by
+  apply gwf_of_singleDate
+  intro a ha b hb
+  obtain ⟨a0, ha0, rfl⟩ := List.mem_map.mp ha
+  obtain ⟨b0, hb0, rfl⟩ := List.mem_map.mp hb
+  exact h a0 ha0 b0 hb0
+
+theorem loads_guarded {rr : RoomRow} (hn : (rr.groups.map (·.gid)).Nodup) (hg : ReloadGuard rr) :
+    ∃ r, Loads Defects.asImplemented r rr := by
+  have hone : ∀ (nf : Bool) (l : List UserRow), (∀ a ∈ l, ∀ b ∈ l, a.key = b.key → a.date = b.date) →
+      UserWF ((readUsers nf l).map UserRow.toUser) := by
+    intro nf l h
+    apply userWF_of_one
+    intro a ha b hb
+    exact h a ((readUsers_perm nf l).mem_iff.mp ha) b ((readUsers_perm nf l).mem_iff.mp hb)
+  have hparse : ∃ r, parseRoom true (exportRoom Defects.asImplemented rr) = .ok r := by
+    apply parseRoom_of_wf
+    · have : (exportRoom Defects.asImplemented rr).groups.map (·.gid) = rr.groups.map (·.gid) := by
+        simp only [exportRoom, List.map_map]
+        apply List.map_congr_left
+        intro g _; rfl
+      rw [this]; exact hn
+    · exact hone Defects.asImplemented.newestFirstReplay _ hg.adminsOne
+    · intro g hgm
+      simp only [exportRoom, List.mem_map] at hgm
+      obtain ⟨g0, hg0, rfl⟩ := hgm
+      refine ⟨?_, hone Defects.asImplemented.newestFirstReplay _ (hg.usersOne g0 hg0),
+        hone Defects.asImplemented.newestFirstReplay _ (hg.userAdminsOne g0 hg0)⟩
+      apply gwf_of_singleDate
+      intro a ha b hb
+      obtain ⟨a0, ha0, rfl⟩ := List.mem_map.mp ha
+      obtain ⟨b0, hb0, rfl⟩ := List.mem_map.mp hb
+      simp only [toRight_entity, toRight_validFrom]
+      exact hg.rightsOne g0 hg0 a0
+        ((readRights_perm Defects.asImplemented.newestFirstReplay g0.rights).mem_iff.mp ha0) b0
+        ((readRights_perm Defects.asImplemented.newestFirstReplay g0.rights).mem_iff.mp hb0)
+  obtain ⟨r, hr⟩ := hparse
+  obtain ⟨hid, hadm, f, hw⟩ := parseRoom_ok hr
+  refine ⟨r, ?_, ?_, hw, hid⟩
+  · have h1 : rr.admins.isEmpty = false := by
+      cases h : rr.admins with
+      | nil => exact absurd h hg.hasAdmin
+      | cons _ _ => rfl
+    have h2 : rr.groups.isEmpty = false := by
+      cases h : rr.groups with
+      | nil => exact absurd h hg.hasGroup
+      | cons _ _ => rfl
+    simp only [reloadRoom, h1, h2, Bool.or_self, Bool.and_false, Bool.false_eq_true, if_false]
+    simp only [Defects.asImplemented] at hr ⊢
+    rw [hr]
+  · apply agreesOrd_export (df := Defects.asImplemented)
+    refine ⟨by rw [hadm], ?_⟩
+    have hnorm : ∀ g ∈ (exportRoom Defects.asImplemented rr).groups, ∀ a ∈ g.rights,
+        a.mutAll = true → a.mutSelf = true := by
+      intro g hgm a ha
+      simp only [exportRoom, List.mem_map] at hgm
+      obtain ⟨g0, hg0, rfl⟩ := hgm
+      exact hg.rightsNormal g0 hg0 a ((readRights_perm Defects.asImplemented.newestFirstReplay g0.rights).mem_iff.mp ha)
+    generalize (exportRoom Defects.asImplemented rr).groups = gs at f hnorm
+    generalize r.auths = as at f
+    induction f with
+    | nil => exact Forall2.nil
+    | @cons a g l1 l2 hab _ ih =>
+      refine Forall2.cons ?_ (ih (fun g' hg' => hnorm g' (List.mem_cons_of_mem _ hg')))
+      refine ⟨hab.id, by rw [hab.users], by rw [hab.userAdmins], ?_⟩
+      rw [hab.rights]
+      have : g.rights.map (RightRow.toRight true) = g.rights.map (RightRow.toRight false) := by
+        apply List.map_congr_left
+        intro x hx
+        exact toRight_raw_eq (hnorm g (List.mem_cons_self ..) x hx)
+      rw [this]
+
+theorem ok_of_toBool {ε α : Type} {x : Except ε α} (h : x.toBool = true) : ∃ a, x = .ok a := by
+  cases x with
+  | ok a => exact ⟨a, rfl⟩
+  | error e => cases h
 
 end Discret.RoomBuild
